@@ -26,12 +26,28 @@ func (p *pg) genC06(profile string) (Config, Plan) {
 	mix := p.swarmMix(kinds, "append")
 	n := p.ops(6 + p.r.Intn(22))
 	var plan Plan
+	// a fifth of the runs read and write entries on both sides of (and well
+	// beyond) the 64 KiB read buffer: the two-read path of the segment reader and
+	// its buffer hand-back run under every reader interleaving
+	bigReads := p.r.Intn(5) == 0
+	if bigReads {
+		c.SegSize = []int{4096, 65536, 1 << 20}[p.r.Intn(3)]
+	}
 	// seed the log so that readers have something to read from the start
 	plan.Ops = append(plan.Ops, p.appendOp())
 	for i := 0; i < n; i++ {
 		op := p.draw(mix)
 		if op.Kind == "append" {
 			for j := range op.Sizes {
+				if bigReads {
+					switch p.r.Intn(4) {
+					case 0:
+						op.Sizes[j] = 65536 - 64 + p.r.Intn(128)
+					case 1:
+						op.Sizes[j] = 70000 + p.r.Intn(200000)
+					}
+					continue
+				}
 				if op.Sizes[j] > 4000 {
 					op.Sizes[j] = 40
 				}
